@@ -48,35 +48,44 @@ CONDS = {
 }
 
 
-def props(unchecked):
-    sim = ('C01', 'C09') + (('C15',) if unchecked else ())
-    return {'SIM': sim, 'INV': ('C08',), 'NOBOT': ('C03',), 'SAFE': ('C04',), 'NOERR': ('C10',), 'MODES': ('C16',)}
+def props(unchecked, ctx='plain'):
+    sim = ('C01', 'C09') + (('C15',) if unchecked else ()) + (('C02',) if ctx != 'plain' else ())
+    return {'SIM': sim, 'INV': ('C08',) + (('C02', 'C03') if ctx != 'plain' else ()), 'NOBOT': ('C03',), 'SAFE': ('C04',), 'NOERR': ('C10',), 'MODES': ('C16',)}
 
 
-def run_if(cond, w, unchecked):
-    L = Lemma(f'block/if/{cond}/w{w}/{"unchecked" if unchecked else "checked"}', w, unchecked, may_defeat=False)
+def in_try_stop_body(L):
+    """the construct sits directly in a try/stop body of a you-function: the effective defeat is the variable word, the function's own defeat is `halt`"""
+    from hidc.codegen import stdlib
+    L.cg.func_defeat = stdlib.halt; L.cg.needs_variable_defeat = True
+    L.func_defeat_value = L.ctx.label('halt')
+
+
+def run_if(cond, w, unchecked, ctx='plain'):
+    L = Lemma(f'block/if/{cond}/{"" if ctx == "plain" else ctx + "/"}w{w}/{"unchecked" if unchecked else "checked"}', w, unchecked, may_defeat=False, virtual_defeat=ctx != 'plain')
     L.functions.update(GEN)
     try:
+        if ctx == 'try-stop-body': in_try_stop_body(L)
         L.enclosing_loop()
         c = CONDS[cond](L)
         blk = ast.IfBlock(None, ABlock('T', ALL, may_continue=True), c, ABlock('E', ALL, may_continue=True))
-        L.check_block(blk, props(unchecked), [('exit', '<end>'), ('exit', 'break_ext'), ('exit', 'continue_ext')] if cond not in ('true', 'false') else [('exit', '<end>')])
+        L.check_block(blk, props(unchecked, ctx), [('exit', '<end>'), ('exit', 'break_ext'), ('exit', 'continue_ext')] if cond not in ('true', 'false') else [('exit', '<end>')])
         modes_enum(L, lambda mt, me: ast.IfBlock(None, ABlock('T', mt), c, ABlock('E', me)), ('T', 'E'))
     finally:
         L.close()
     return L.results
 
 
-def run_loop(cond, w, unchecked):
-    L = Lemma(f'block/loop/{cond}/w{w}/{"unchecked" if unchecked else "checked"}', w, unchecked)
+def run_loop(cond, w, unchecked, ctx='plain'):
+    L = Lemma(f'block/loop/{cond}/{"" if ctx == "plain" else ctx + "/"}w{w}/{"unchecked" if unchecked else "checked"}', w, unchecked, virtual_defeat=ctx != 'plain')
     L.functions.update(GEN)
     try:
+        if ctx == 'try-stop-body': in_try_stop_body(L)
         c = CONDS[cond](L)
         body = ABlock('B', ALL, may_continue=True)
         cont = ABlock('C', ExitMode.NONE | ExitMode.LOOP | ExitMode.DEFEAT)
         blk = ast.LoopBlock(None, body, c, cont)
         cov = [('exit', '<end>')]
-        L.check_block(blk, props(unchecked), cov)
+        L.check_block(blk, props(unchecked, ctx), cov)
         modes_enum(L, lambda mb, mc: ast.LoopBlock(None, ABlock('B', mb), c, ABlock('C', mc & ~(ExitMode.BREAK | ExitMode.RETURN))), ('B', 'C'))
     finally:
         L.close()
@@ -241,6 +250,10 @@ def tasks(tier):
                 out.append(task(MOD, 'run_if', P, label=f'block/if/{cond}/w{w}/u{int(unchecked)}', cost=6, cond=cond, w=w, unchecked=unchecked))
                 out.append(task(MOD, 'run_loop', P, label=f'block/loop/{cond}/w{w}/u{int(unchecked)}', cost=6, cond=cond, w=w, unchecked=unchecked))
             arrays = ('arrays-literal', 'arrays-dynamic', 'arrays-bool-dynamic', 'arrays-literal-dynamic', 'arrays-dynamic-literal', 'arrays-nested')
+            for ctx in ('try-stop-body', 'defeat-function'):
+                for cond in list(CONDS)[:2] if tier == 'quick' else CONDS:
+                    out.append(task(MOD, 'run_if', P + ('C02',), label=f'block/if/{cond}/{ctx}/w{w}/u{int(unchecked)}', cost=6, cond=cond, w=w, unchecked=unchecked, ctx=ctx))
+                    out.append(task(MOD, 'run_loop', P + ('C02',), label=f'block/loop/{cond}/{ctx}/w{w}/u{int(unchecked)}', cost=6, cond=cond, w=w, unchecked=unchecked, ctx=ctx))
             seqs = ('seq-2', 'seq-3', 'seq-break', 'seq-return') if not unchecked else ()
             for v in ('expr-block-expr', 'decl-block', 'nested', 'noreturn-tail') + seqs + (arrays if not unchecked else ('arrays-literal',)):
                 out.append(task(MOD, 'run_codeblock', P, label=f'block/code/{v}/w{w}/u{int(unchecked)}', cost=4, variant=v, w=w, unchecked=unchecked))
